@@ -33,7 +33,7 @@ func verifC23Item() verifItem {
 
 func verifC23State() *LocalBuffer {
 	// arbitrary valid state: data of symbolic length, positions inside it, nothing pending
-	n := v.Concretize(v.OneOf(48, 64, 96))
+	n := v.Concretize(v.OneOf(48, 64, 96, v.Param("NBIG", 96))) // NBIG: a buffer with room for three IPv6 records (thorough)
 	max := v.IntIn(40, 192)
 	pool := &LocalBufferPool{MaxBufferSize: max, MemPoolLimitUnique: concurrency.NewMemPoolLimitUnique(1, n)}
 	b := &LocalBuffer{data: pool.Get(n), memPool: pool}
